@@ -29,7 +29,8 @@ EXPLANATION = ('theorems C11_* (coq/props/C11.v), for every table and key choice
                'on every run, evaluated inside Coq')
 TRUSTED = ['modelled, not verified: dictable construction / concat / dict_concat plumbing (column order is observed up to sorting), CPython sorted() is stable',
            'the theorems are about the Gallina model (M_group.v); its agreement with _dictable.py is what the correspondence checks']
-ASSUMPTIONS = ['ints are exact at any size (adjacent ints beyond 2^53, 10**30 and float(2**53) are in the key pools); cells are scalars; keys are grouped with cmp(...) == 0 as /repo does since 9228ab2 (any two NaN are one key)', 'key columns are distinct existing names',
+ASSUMPTIONS = ['+-inf key cells are one key together with NaN, by library design (cmp ranks nan and +-inf alike: `is_nan` documents "nan or inf"); they are not generated',
+               'datetime, pd.Timestamp and np.datetime64 cells of equal value are one key (generated in the dates columns)', 'ints are exact at any size (adjacent ints beyond 2^53, 10**30 and float(2**53) are in the key pools); cells are scalars; keys are grouped with cmp(...) == 0 as /repo does since 9228ab2 (any two NaN are one key)', 'key columns are distinct existing names',
                'pivot: y values are strings, ints or half-integer floats whose labels do not collide with x column names or each other; unpivot is not observed for float y; table non-empty']
 EXHAUSTIVE = {'quick': False, 'thorough': False}
 
